@@ -790,6 +790,14 @@ pub fn run_master(prop: &dyn Prop, tier: Tier, seed: u64) -> i32 {
             };
             let _ = std::fs::remove_file(&p);
             match confirmed {
+                Some("fail") => {
+                    let (sig, detail) = err_tail.split_once('\u{1}').map(|(a, b)| (a.to_string(), b.to_string())).unwrap_or((err_tail.clone(), String::new()));
+                    if known.iter().any(|k| k.status == "open" && k.signature == sig) || survey(id, &sig, &kind, &case, "fail") {
+                        *total.excluded_known.entry(sig).or_default() += 1;
+                    } else {
+                        total.failures.push(Failure { signature: sig, detail: format!("the worker died on this case ({exit_desc}); alone it fails: {detail}"), case, kind });
+                    }
+                }
                 Some(what) => {
                     let base = if what == "hang" { "hang".to_string() } else { crash_signature(&err_tail, &tail) };
                     let sig = prop.classify_stuck(&kind, &case, &base);
@@ -892,6 +900,9 @@ pub fn run_master(prop: &dyn Prop, tier: Tier, seed: u64) -> i32 {
         if k.starts_with("discard:harness-panic") {
             inconclusive.push(format!("{v} case(s) hit a panic inside the harness itself: {k}"));
         }
+    }
+    if total.evaluations == 0 {
+        inconclusive.push("no case was evaluated".to_string());
     }
     if total.evaluations > 0 && total.discarded * 2 > total.evaluations {
         inconclusive.push(format!("more than half of the generated cases were discarded ({} of {})", total.discarded, total.evaluations));
@@ -1007,6 +1018,11 @@ fn confirm_stuck(exe: &Path, id: &str, replay: &Path, timeout_s: u64) -> (Option
         (Some("hang"), err_tail)
     } else if !stdout.lines().any(|l| l.starts_with("RESULT ")) {
         (Some("crash"), err_tail)
+    } else if let Some(sig) = stdout.lines().find_map(|l| l.strip_prefix("RESULT fail ")) {
+        // the case fails in an ordinary way when run alone (e.g. a panic that killed the worker
+        // because it happened outside the checked call): report it with its own signature
+        let detail = stdout.lines().find(|l| l.trim_start().starts_with("detail:")).unwrap_or("").trim().to_string();
+        (Some("fail"), format!("{}\u{1}{}", sig.trim(), detail))
     } else {
         (None, err_tail)
     }
